@@ -47,6 +47,8 @@ struct GenOpts {
   double utilLo = 0.05, utilHi = 1.3;
   bool globalDomain = false;  // C06 domain: rows >= 4 row-heights wide, >= 1 movable cell of positive area
   bool singleRowOnly = false;
+  bool twoTypes = false;    // the movable cells alternate between two library cells of different heights (C18: systematic rounding)
+  bool tallMix = false;     // half of the movable cells are several rows high (mixed heights)
   bool unitRows = false;    // rows one unit high: tiny cells, total movable area comparable to the number of cells
   bool zeroAreaMovable = false;  // C06: movable cells of zero area are allowed next to >= 1 cell of positive area
 };
@@ -100,6 +102,7 @@ inline Circuit genCircuit(Rng &r, const GenOpts &o, GenInfo *info = nullptr) {
   }
   int minW = o.globalDomain ? 6 * H : std::max(2 * unit, H);
   int W = (int)r.in(minW / unit + 1, minW / unit + 30) * unit;
+  if (o.twoTypes) W *= 8;   // room for many cells of both types
   int orientMode = (int)r.in(0, 3);  // 0 alternating N/FS, 1 uniform, 2 irregular, 3 alternating FN/S
   std::vector<CellOrientation> rowOr = {CellOrientation::N, CellOrientation::S, CellOrientation::FN,
                                         CellOrientation::FS};
@@ -182,6 +185,7 @@ inline Circuit genCircuit(Rng &r, const GenOpts &o, GenInfo *info = nullptr) {
     int rowsHigh = 1;
     if (o.multiRow && !o.singleRowOnly) {
       double p = r.real(0, 1);
+      if (o.tallMix) p *= 0.45;
       if (p < 0.12) rowsHigh = 2;
       else if (p < 0.18) rowsHigh = 3;
       else if (p < 0.22) rowsHigh = (int)r.in(4, 6);
@@ -223,6 +227,15 @@ inline Circuit genCircuit(Rng &r, const GenOpts &o, GenInfo *info = nullptr) {
     } else {
       w[i] = pw;
       h[i] = ph;
+    }
+    if (o.twoTypes) {
+      // two library cells, drawn once per circuit from the seed of its row height
+      Rng tr((uint64_t)H * 7919u + (uint64_t)W * 31u + (uint64_t)n);
+      int wA = (int)tr.in(1, 5) * unit, wB = (int)tr.in(1, 7) * unit, kB = (int)tr.in(2, 4);
+      orient[i] = CellOrientation::N;
+      pol[i] = CellRowPolarity::ANY;
+      w[i] = (i % 2 == 0) ? wA : wB;
+      h[i] = (i % 2 == 0) ? H : kB * H;
     }
     if (o.zeroAreaMovable && i > 0 && r.chance(0.12)) {
       // zero-area movable cell (a pin-only or placeholder cell)
